@@ -49,7 +49,13 @@ def main():
             raise
         tb = traceback.format_exception(type(ex), ex, ex.__traceback__)
         tb = ''.join(tb)
-        head = '%s: %s' % (type(ex).__name__, str(ex)[:600])
+        head = '%s: %s' % (type(ex).__name__, str(ex)[:300])
+        subs = getattr(ex, 'exceptions', None)
+        if subs:
+            for e in subs:
+                stb = traceback.format_exception(type(e), e, e.__traceback__)
+                head += '\n  sub-exception %s: %s\n%s' % (
+                    type(e).__name__, str(e)[:300], ''.join(stb)[-1200:])
         res = dict(harness_error=head + '\n' + tb[:2500],
                    failures=[], evaluations=0)
     tmp = outf + '.tmp'
